@@ -2,6 +2,7 @@ package base
 
 import (
 	"slices"
+	"strings"
 )
 
 type Sig struct {
@@ -53,6 +54,25 @@ var MethodCallPoint = make(map[string][]CallPoint)
 var MethodCalleePoint = make(map[string][]CalleePoint)
 var SpecialCodeComments = []SpecialCodeComment{}
 
+// compareSigTie orders signatures that share method, class and frame
+// (overloads, or a class method and an instance method of the same name), so
+// that the sorted order does not depend on map iteration order.
+func compareSigTie(a, b Sig) int {
+	if a.IsStatic != b.IsStatic {
+		if !a.IsStatic {
+			return -1
+		}
+		return 1
+	}
+	if c := strings.Compare(a.Detail, b.Detail); c != 0 {
+		return c
+	}
+	if c := strings.Compare(a.FileName, b.FileName); c != 0 {
+		return c
+	}
+	return a.Row - b.Row
+}
+
 func GetSortedTSignatures() []Sig {
 	sortedSignatures := make([]Sig, 0, len(TSignatures))
 
@@ -79,7 +99,7 @@ func GetSortedTSignatures() []Sig {
 		if a.Frame > b.Frame {
 			return 1
 		}
-		return 0
+		return compareSigTie(a, b)
 	})
 
 	return sortedSignatures
@@ -111,7 +131,7 @@ func GetSortedTSignaturesByClass() []Sig {
 		if a.Frame > b.Frame {
 			return 1
 		}
-		return 0
+		return compareSigTie(a, b)
 	})
 
 	return sortedSignatures
